@@ -68,6 +68,14 @@ class Justifications:
             if fn.cls is not None and fn.cls.name == 'PortsSemanticsCfg' and \
                     self._port_loop_over_expected(fn, self._call_with_port(ob.node)):
                 return self._assume(A1) + ' (loop variable over the expected port names)'
+        # --- inside get_single_instance: every result shape was interpreted (E6) -----------------------------------------------
+        if fn.qualname == 'FindResult.get_single_instance' and ob.kind in ('unpack', 'index', 'subscript') :
+            if '_gsi_foreign_exceptions' not in self.ctx.__dict__:
+                single_instance_gate(self.ctx)
+            foreign = self.ctx.__dict__.get('_gsi_foreign_exceptions')
+            if foreign is not None and not foreign:
+                return ('get_single_instance was interpreted on every result shape (0 / 1 / 2 / 3 items of each kind, with and '
+                        'without a hint): nothing but FindError is ever raised')
         # --- FindResult element types --------------------------------------------------------------------------
         if ob.kind == 'raise' and fn.qualname == 'FindResult.__post_init__' and ob.exc == 'TypeError':
             return self._cached('findresult', self._findresult_types)
